@@ -82,6 +82,17 @@ func buildFlattenRuns(tier string, seed int64, scratch string, which string) ([]
 	}
 	runs := []*flattenRun{}
 	errs := []string{}
+	addRuns := func(c *Case, i int) {
+		b := c.Bundle
+		sets := append([]flattenOpts{}, baseOptSets...)
+		if b.Feat.NAux == 0 && i%2 == 0 {
+			sets = append(sets, flattenOpts{KeepNames: true}, flattenOpts{Minimal: true, KeepNames: true, RemoveUnused: true})
+		}
+		for j, o := range sets {
+			args := flattenArgs{Opts: o, InW: inW(b.Feat, o), Second: !o.Expand, Rerun: o.Expand, Getters: true}
+			runs = append(runs, &flattenRun{c: c, args: args, tid: fmt.Sprintf("%so%d", c.Tid, j)})
+		}
+	}
 	for i := 0; i < nb; i++ {
 		g := NewGen(seed*1000003+int64(i)*17+5, flattenGenOpts(i))
 		b := g.GenBundle()
@@ -94,14 +105,12 @@ func buildFlattenRuns(tier string, seed int64, scratch string, which string) ([]
 			errs = append(errs, err.Error())
 			continue
 		}
-		sets := append([]flattenOpts{}, baseOptSets...)
-		if b.Feat.NAux == 0 && i%2 == 0 {
-			sets = append(sets, flattenOpts{KeepNames: true}, flattenOpts{Minimal: true, KeepNames: true, RemoveUnused: true})
-		}
-		for j, o := range sets {
-			args := flattenArgs{Opts: o, InW: inW(b.Feat, o), Second: !o.Expand, Rerun: o.Expand, Getters: true}
-			runs = append(runs, &flattenRun{c: c, args: args, tid: fmt.Sprintf("b%do%d", i, j)})
-		}
+		addRuns(c, i)
+	}
+	sc, e := scenarioCases("flatten", tier, seed, scratch)
+	errs = append(errs, e...)
+	for i, c := range sc {
+		addRuns(c, i)
 	}
 	return runs, errs
 }
@@ -186,6 +195,12 @@ func checkFlatten(prop, tier string, seed int64) int {
 		rep.HarnessErr = append(rep.HarnessErr, "TLC did not complete:\n"+tail(stripExports(fc.tlc.Out), 25))
 	}
 	rep.States, rep.Transitions = fc.tlc.Distinct, fc.tlc.Generated
+	if mc := lastMC["flatten"]; mc != nil {
+		rep.States += mc.Distinct
+		rep.Transitions += mc.Generated
+		rep.Extra["exhaustive_model_run"] = map[string]any{"module": mc.Module, "distinct_states": mc.Distinct, "states_generated": mc.Generated,
+			"bundles_exported": mc.Exported, "wall_s": mc.WallS, "invariants": []string{"AllResolve", "NoBackRef", "CycleAsExpected", "HoldersTyped"}}
+	}
 	diags := map[string][]string{}
 	for _, d := range fc.tlc.Diags {
 		tid, p, _, _ := diagShape(d)
@@ -213,7 +228,7 @@ func checkFlatten(prop, tier string, seed int64) int {
 		rep.Distinct[run.c.Bundle.Docs["root"].Hash()+run.args.Opts.String()] = true
 		if len(rep.Samples) < 3 && len(st) >= 5 {
 			rep.Samples = append(rep.Samples, map[string]any{"tid": run.tid, "opts": run.args.Opts.String(), "documents": st[0], "defs_before": st[1], "defs_after": st[2],
-				"refs_before": st[3], "refs_after": st[4], "features": run.c.Bundle.Feat, "names": sampleNames(run.c.Names)})
+				"refs_before": st[3], "refs_after": st[4], "features": run.c.Bundle.Feat, "scenario": run.c.Note, "names": sampleNames(run.c.Names)})
 		}
 		if res {
 			rep.TracesOK++
